@@ -27,7 +27,12 @@ RULE = ("random DCOPs of 1-6 variables (domains of 1-3 integer values, also non-
         "mgm2 (threshold 0-1, the three favor modes) or dsa (variants A/B/C, probability 0-1); real computations "
         "run by the thread-free netdriver under a seeded schedule from 6 policies (uniform, drain, newest, "
         "startlate, starve:<node>), 75% to quiescence, 25% cut after 1-60 actions; every random.choice / "
-        "random.random / random.uniform / numpy.random.choice of the algorithms replaced by a logged oracle. "
+        "random.random / random.uniform / numpy.random.choice / numpy.random.randint of the algorithms replaced by a "
+        "logged oracle. 20% of the cases are DSA on TIE-RICH instances (2-4 variables, domains of 2-4 values, own "
+        "costs in {0,1(,2)} on 85% of the variables (dict or function), binary tables in {0,1(,2)}, variants B/C "
+        "favoured, stop_cycle 3-6): there 'cost difference 0 although the current value is not a best value, "
+        "several best values' (find_optimal adds the variable's own cost, the current cost does not) happens in "
+        "~10% of the runs. "
         "non-trivial = some computation reaches cycle 2; distinct = distinct case JSON")
 MODELLED = ("modelled: all message handlers of MgmComputation, DsaComputation and Mgm2Computation with their "
             "postponed lists / dictionaries, stop_cycle tests, value_selection, new_cycle, finished, stop, plus "
@@ -70,15 +75,22 @@ def gen(rng, n, tier):
     cases = []
     for _ in range(n):
         algo = rng.choice(ALGOS)
-        vars_, cons = L.gen_dcop(rng, nmax=5)
-        k = rng.randint(1, 5)
+        tie = rng.random() < 0.2        # DSA, tie-rich instance with variables' own costs (see RULE)
+        if tie:
+            algo = "dsa"
+            vars_, cons = L.gen_tie_dcop(rng)
+            k = rng.randint(3, 6)
+        else:
+            vars_, cons = L.gen_dcop(rng, nmax=5)
+            k = rng.randint(1, 5)
         full = rng.random() < 0.75
         params = {}
         if algo == "mgm2":
             params = dict(threshold=rng.choice([0.0, 0.3, 0.5, 0.5, 0.8, 1.0]),
                           favor=rng.choice(["unilateral", "no", "coordinated"]))
         if algo == "dsa":
-            params = dict(variant=rng.choice("ABC"), probability=rng.choice([0, 300, 500, 700, 700, 1000]) / 1000.0)
+            params = dict(variant=rng.choice("BCCBA" if tie else "ABC"),
+                          probability=rng.choice([0, 300, 500, 700, 700, 1000]) / 1000.0)
         c = dict(algo=algo, mode=rng.choice(["min", "max"]), stop_cycle=k, params=params, vars=vars_, cons=cons,
                  seed=rng.randrange(10 ** 9), policy=L.policy_for(rng, len(vars_)),
                  max_steps=2000 if full else rng.randint(1, 60), full=1 if full else 0)
